@@ -10,7 +10,7 @@ def abstract(tokens):
         if t.is_end_token and hasattr(t, "start_markdown_token"):
             cls = 0 if t.is_container_end_token else 1 if t.is_leaf_end_token else 2
             sm = getattr(t, "start_markdown_token", None)
-            out.append((1, cls, idx.get(id(sm), 999999), t.type_name))
+            out.append((1, cls, idx.get(id(sm), len(tokens)), t.type_name))  # a start token that is not in the stream: a position no token has
         else:
             cls = t._MarkdownToken__token_class.value     # 0 container, 1 leaf, 2 inline, 3 special (the class has no public accessor)
             shape = 0 if (t.requires_end_token and not t.is_new_list_item) else 2
